@@ -36,7 +36,8 @@ def _gen_cases(tier, seed):
     for i in range(n):
         rng = common.rng_for("C05", seed, i)
         kind = KINDS[i % len(KINDS)]
-        cell = common.CELL_KINDS[(i // len(KINDS)) % len(common.CELL_KINDS)]
+        kinds_ = common.CELL_KINDS + ["near_ortho"]
+        cell = kinds_[(i // len(KINDS)) % len(kinds_)]
         yield dict(i=i, seed=common.case_seed(seed, "C05", i), kind=kind, cell=cell,
                    spread=int(rng.choice([0, 0, 1, 3, 10, 50])), perframe=bool(rng.random() < 0.3),
                    n_frames=int(rng.integers(1, 6)), n_atoms=int(rng.integers(2, 40)))
@@ -47,7 +48,17 @@ def _build(case):
     rng = common.rng_for("C05case", case["seed"])
     nf, na = case["n_frames"], case["n_atoms"]
     perframe = case["perframe"]
-    cells = [common.random_cell(rng, case["cell"]) for _ in range(nf if perframe else 1)]
+    def one_cell():
+        if case["cell"] == "near_ortho":
+            # a skewed cell whose angles differ from 90 by less than a thousandth of a degree (e.g. the first steps of a
+            # continuous box deformation): still a triclinic lattice, the skew adds up over many cells
+            l, a = common.random_cell(rng, "ortho")
+            a = a.copy()
+            for k in rng.choice(3, size=int(rng.integers(1, 4)), replace=False):
+                a[k] = 90.0 + float(rng.choice([-1, 1])) * float(rng.uniform(1e-4, 8e-4))
+            return l, a
+        return common.random_cell(rng, case["cell"])
+    cells = [one_cell() for _ in range(nf if perframe else 1)]
     if not perframe:
         cells = cells * nf
     L = np.array([c[0] for c in cells], dtype=np.float32)
